@@ -98,6 +98,7 @@ def main():
     ap.add_argument("--expect", default="violation", choices=["violation", "silent"],
                     help="violation: breaking changes (seeded/); silent: behaviour-preserving refactorings (refactors/)")
     a = ap.parse_args()
+    a.dir = os.path.abspath(a.dir)
     items = []
     want = a.props.split(",") if a.props else None
     for prop in sorted(os.listdir(a.dir)):
@@ -115,6 +116,7 @@ def main():
     for r in results:
         if "error" in r:
             print("%s/%s ERROR %s" % (r["prop"], r["name"], r["error"]))
+            missed += 1
             continue
         own = {0: "silent", 1: "VIOLATION", 2: "UNDECIDED"}.get(r["own_rc"], "rc=%s" % r["own_rc"])
         if r["own_rc"] != want_rc or (a.expect == "silent" and r.get("others")):
@@ -130,7 +132,7 @@ def main():
         print("changes=%d caught=%d not-caught=%d" % (len(results), len(results) - missed, missed))
     if a.json:
         json.dump(results, open(a.json, "w"), indent=1)
-    return 0
+    return 1 if missed else 0
 
 
 if __name__ == "__main__":
